@@ -95,6 +95,22 @@ func TestC03(t *testing.T) {
 		r.Require("conc_allowlisted_conns", 1)
 	}
 
+	// 2b. a peer that comes back while the collector runs (exact audit of scopes only one goroutine uses)
+	if !r.TooMany() && (only == "" || only == "gcrace") {
+		ng := r.Pick(16, 120)
+		if race {
+			ng = r.Pick(8, 40)
+		}
+		run.Parallel(ng, 4, func(i int) {
+			if r.TooMany() {
+				return
+			}
+			runGCRaceCase(r, i, race, merge)
+		})
+		r.Require("gcrace_audits", ng*1000)
+		r.Require("gcrace_gc_runs", ng*100)
+	}
+
 	// 3. single-scope linearizability (porcupine)
 	if !r.TooMany() && (only == "" || only == "lin") {
 		nl := r.Pick(150, 3000)
